@@ -36,6 +36,17 @@ Theorem C12_recovers : forall V D k s, D k = [] -> Inv V s ->
 Proof. exact get_completes. Qed.
 Print Assumptions C12_recovers.
 
+(* ... and with any acyclic nesting of disk caches (the computation of an entry reads the entries D k, which rank
+   below it): from any such store an uninterrupted call for k finishes, every answer on the way is the value of its
+   entry, and k is readable afterwards *)
+Theorem C12_recovers_nested : forall V D (rank : key -> nat),
+  (forall k d, In d (D k) -> rank d < rank k) ->
+  forall k s, Inv V s ->
+  exists n c' outs, srun V D n {| c_fs := s; c_cur := None; c_todo := [IGet k] |} = (c', outs) /\
+    finished c' = true /\ Forall (ok_ans V) outs /\ fst (read k (c_fs c')) = Hit (V k).
+Proof. exact get_completes_nested. Qed.
+Print Assumptions C12_recovers_nested.
+
 (* regenerated from cache/disk.py and layers/cache.py: a miss is a value, and the blob store raises on a missing blob
    (which is what turns a lost blob into a deleted entry instead of a wrong or failing read) *)
 Theorem C12_store_is_translated :
